@@ -34,7 +34,39 @@ let parse_tree s =
     | _ -> failwith "tree tag" in
   value ()
 
+(* ---- Dispatch ---- *)
+let canon_params (ps : (BinNums.coq_Z list * BinNums.coq_Z list) list) =
+  (* Go map semantics: later duplicates win; then sort by key *)
+  let tbl = Hashtbl.create 8 in
+  Stdlib.List.iter (fun (k, v) -> Hashtbl.replace tbl (string_of_bytes k) (k, v)) ps;
+  let l = Hashtbl.fold (fun ks kv acc -> (ks, kv) :: acc) tbl [] in
+  let l = Stdlib.List.sort (fun (a, _) (b, _) -> compare a b) l in
+  Stdlib.String.concat "," (Stdlib.List.map (fun (_, (k, v)) -> hexe k ^ "=" ^ hexe v) l)
+let parse_history s =
+  if s = "" then [] else
+  Stdlib.List.map (fun o -> match split ':' o with
+    | ["L"; k; id] -> DispatchModel.AddLit (hexd k, nat_of_int (int_of_string id))
+    | ["P"; p; id] -> DispatchModel.AddPat (nat_of_int (int_of_string p), nat_of_int (int_of_string id))
+    | _ -> failwith "history") (split ',' s)
+let dispatch hist mthex truth =
+  let reg = Stdlib.List.fold_left DispatchModel.reg_step DispatchModel.reg_init (parse_history hist) in
+  let ((mt, _hasmap), params) = DispatchModel.mediatype (hexd mthex) in
+  let pmatch p _ = let i = int_of_nat p in truth <> "-" && i < sl truth && truth.[i] = '1' in
+  let served = DispatchModel.served pmatch reg mt in
+  let m = DispatchModel.match_q pmatch reg mt in
+  Printf.sprintf "served=%s mt=%s params=%s match=%s"
+    (match served with Some id -> string_of_int (int_of_nat id) | None -> "none") (hexe mt)
+    (match served with Some _ -> canon_params params | None -> "")
+    (match m with DispatchModel.MLit id -> Printf.sprintf "L:%d" (int_of_nat id)
+                | DispatchModel.MPat (p, id) -> Printf.sprintf "P:%d:%d" (int_of_nat p) (int_of_nat id)
+                | DispatchModel.MNone -> "N")
+let mediatype_line h =
+  let ((mt, hasmap), params) = DispatchModel.mediatype (hexd h) in
+  Printf.sprintf "mt=%s hasmap=%s params=%s" (hexe mt) (if hasmap then "1" else "0") (canon_params params)
+
 let register (reg : string -> (string list -> string) -> unit) =
   reg "json_events" (function [k; evs] -> hexe (JsonModel.json_minify_events (k = "1") (parse_events evs))
                             | [k] -> hexe (JsonModel.json_minify_events (k = "1") []) | _ -> "BADARGS");
+  reg "dispatch" (function [h; m; t] -> dispatch h m t | _ -> "BADARGS");
+  reg "mediatype" (function [m] -> mediatype_line m | [] -> mediatype_line "-" | _ -> "BADARGS");
   reg "json_tree" (function [t] -> show_events (JsonSpec.events_of JsonModel.SValue (parse_tree t)) | _ -> "BADARGS")
